@@ -138,9 +138,12 @@ def run_stats(case):
     chunks = [xs[a:b] for a, b in zip(bounds, bounds[1:])]
     with under_test("RunningStatistics.update_from_it"):
         rs2 = u.RunningStatistics()
+        import numpy as _np
         for i, ch in enumerate(chunks):
-            if i % 2:
+            if i % 3 == 1:
                 rs2.update_from_it(iter(ch))
+            elif i % 3 == 2:
+                rs2.update_from_it(_np.array(ch))
             else:
                 rs2.update_from_it(list(ch))
     check_stats(rs2, xs, "chunked")
@@ -191,6 +194,13 @@ def run_cov(case):
         rc = u.RunningCovariance()
         if case.get("feed") == "it":
             rc.update_from_it(series[0], series[1])
+        elif case.get("feed") == "it_array":
+            import numpy as _np
+            h_ = max(1, n // 2)
+            rc.update_from_it(_np.array(series[0][:h_]),
+                              _np.array(series[1][:h_]))
+            rc.update_from_it(_np.array(series[0][h_:]),
+                              _np.array(series[1][h_:]))
         else:
             for x, y in zip(series[0], series[1]):
                 rc.update(x, y)
@@ -209,6 +219,9 @@ def run_cov(case):
         rcm = u.RunningCovarianceMatrix(k)
         if case.get("feed") == "it":
             rcm.update_from_it(*series)
+        elif case.get("feed") == "it_array":
+            import numpy as _np
+            rcm.update_from_it(*[_np.array(s_) for s_ in series])
         else:
             for row in zip(*series):
                 rcm.update(*row)
@@ -301,8 +314,8 @@ def series_spec(draw, max_inline=40):
     off = draw(st.sampled_from(OFFSETS) | st.floats(-1e9, 1e9))
     spread = draw(st.sampled_from(SPREADS) | st.floats(1e-3, 1e3))
     if draw(st.booleans()):
-        noise = draw(st.lists(st.floats(-1, 1), min_size=1,
-                              max_size=max_inline))
+        noise = draw(st.lists(st.floats(-1, 1).map(lambda z: round(z, 9)),
+                              min_size=1, max_size=max_inline))
         return {"offset": off, "spread": spread, "noise": noise}
     return {"offset": off, "spread": spread,
             "seed": draw(st.integers(0, 2**32)),
@@ -333,7 +346,7 @@ def cov_strategy(draw):
                "mix": draw(st.sampled_from([0.0, 1.0, -1.0, 0.5, 2.0]))}
               for _ in range(k)]
     return {"series": spec, "k": k, "others": others,
-            "feed": draw(st.sampled_from(["update", "it"]))}
+            "feed": draw(st.sampled_from(["update", "it", "it_array"]))}
 
 
 @st.composite
@@ -351,8 +364,9 @@ def stop_strategy(draw):
         off = draw(st.sampled_from([0.0, 1.0, 10.0, -5.0, 1e3]))
         sp = draw(st.sampled_from([1e-3, 0.1, 1.0, 10.0]))
         gen = {"kind": kind, "values": [
-            off + sp * z for z in draw(st.lists(st.floats(-1, 1), min_size=1,
-                                                max_size=25))]}
+            off + sp * z for z in draw(st.lists(
+                st.floats(-1, 1).map(lambda z: round(z, 9)), min_size=1,
+                max_size=25))]}
     return {"gen": gen,
             "rtol": draw(st.sampled_from([1e-3, 0.01, 0.02, 0.1, 0.5, 1.0])),
             "tol_scale": draw(st.sampled_from([0.0, 1e-3, 1.0, 10.0])),
